@@ -150,7 +150,7 @@ def run(ctx):
                     res.violations += vs
     # seeded timed histories
     prof = dict(weights=dict(adv=30, post=14, frame=10, send=12, poll=12, open=6, open_ws=4, upgrade=3, disc=1, bad=1, api=1, wsclose=2), p_async=0.1)
-    for h in range(ctx.n(200, 2000)):
+    for h in range(ctx.n(200, 20000)):
         I, T, g = rng.choice(GRID)
         cfg = hist.Cfg(interval=I, timeout=T, monitor=rng.random() < 0.75, grace=g)
         ops = hist.gen_history(rng, cfg, rng.choice([12, 20, 30]), prof['weights'], 3)
